@@ -29,6 +29,7 @@ STATUSES = ['WAITING', 'PENDING', 'DONE', 'FAILED', 'SKIPPED']
 OUTCOMES = ['SUCCESS', 'FAILURE', 'MISSING', 'NOT_A_TEST']
 KINDS = ['equal', 'approx', 'student', 'bonf', 'holm', 'chi2', 'meta', 'tasks', 'tests', 'bylabels', 'failed']
 REPRESENTERS = ['Table', 'FullTable', 'Plot', 'FullPlot', 'Full', 'Empty']
+SPECIALS = [float('nan'), float('inf'), float('-inf'), -0.0, 5e-324, 1e308, -1e308, 0.0]
 
 
 # ---------------------------------------------------------------------------
@@ -219,15 +220,22 @@ def gen_data(rng, kind):
             shape = [3]
         nbin = int(np.prod(shape)) if shape else 1
         nds = rng.choice([2, 2, 3])
-        ref = [round(rng.uniform(1., 20.), 3) for _ in range(nbin)]
+        lo = -10. if rng.random() < 0.15 else 1.      # mixed signs now and then (in-place abs / clip)
+        ref = [round(rng.uniform(lo, 20.), 3) for _ in range(nbin)]
         vals, errs = [ref], [[round(rng.uniform(0.1, 1.), 3) for _ in range(nbin)]]
         for _ in range(nds - 1):
             mode = rng.random()
             vals.append([v if mode < 0.3 else round(v + rng.gauss(0, 0.5 if mode < 0.7 else 5.), 3)
                          for v in ref])
             errs.append([round(rng.uniform(0.1, 1.), 3) for _ in range(nbin)])
-        if rng.random() < 0.05:
-            vals[-1][0] = float('nan')
+        # special floats in values AND errors of any dataset (the reference included), at a controlled
+        # rate: in-place "cleaning" idioms (nan_to_num / clip / abs / round / sort with out= or copy=False,
+        # masked fills) only show on such cells
+        r = rng.random()
+        if r < 0.35:
+            for _ in range(rng.choice([1, 1, 2, 3])):
+                arr = rng.choice([vals, errs] if r < 0.25 else [errs])
+                arr[rng.randrange(nds)][rng.randrange(nbin)] = rng.choice(SPECIALS)
         data = {'shape': shape, 'vals': vals, 'errs': errs, 'labels': gen_labels(rng)}
         if kind in ('student', 'bonf', 'holm') and rng.random() < 0.3:
             data['ndf'] = rng.choice([5, 20, 1000])
@@ -261,6 +269,17 @@ def gen_data(rng, kind):
 def gen_ops(rng, kind):
     from valjean.javert.verbosity import Verbosity
     verbs = [v.name for v in Verbosity]
+    if rng.random() < 0.12:
+        # every representation entry point (6 representers x every verbosity) once, in random order,
+        # each followed now and then by an operation that would reveal a change (fingerprint, pickle, ...)
+        ops = []
+        sweep = [['table', rep, verb] for rep in REPRESENTERS for verb in verbs]
+        rng.shuffle(sweep)
+        for op in sweep:
+            ops.append(op)
+            if rng.random() < 0.15:
+                ops.append([rng.choice(['fingerprint', 'pickle', 'evaluate', 'bool', 'deepcopy'])])
+        return ops
     ops = []
     for _ in range(rng.randint(1, 12)):
         r = rng.random()
@@ -269,7 +288,7 @@ def gen_ops(rng, kind):
         elif r < 0.55:
             ops.append(['table', rng.choice(REPRESENTERS), rng.choice(verbs)])
         elif r < 0.67:
-            ops.append(['rst', rng.choice(['Table', 'FullTable', 'Empty', 'Full', 'Plot']), rng.choice(verbs)])
+            ops.append(['rst', rng.choice(REPRESENTERS), rng.choice(verbs)])
         elif r < 0.73:
             ops.append(['fingerprint'])
         elif r < 0.85:
